@@ -439,6 +439,13 @@ var hdTargets = []mgTarget{
 	{"pkg/ingress/ingress.go", "Ingresses.MatchingPath", "matchingPath"},
 	{"pkg/ingress/ingress.go", "ParseIngress", "parseIngress"},
 	{"pkg/ingress/ingress.go", "mustScheme", "mustScheme"},
+	{"pkg/openid/client/login.go", "Client.Login", "clientLogin"},
+	{"pkg/openid/client/login.go", "Client.newAuthorizationCodeParams", "newAuthorizationCodeParams"},
+	{"pkg/openid/client/login.go", "Client.authCodeURL", "authCodeURL"},
+	{"pkg/openid/client/login.go", "Login.SetCookie", "loginSetCookie"},
+	{"pkg/openid/oauth2.go", "AuthorizationCodeParams.RequestParams", "authRequestParams"},
+	{"pkg/openid/oauth2.go", "AuthorizationCodeParams.Cookie", "authCookie"},
+	{"pkg/openid/oauth2.go", "ParAuthorizationRequestParams", "parRequestParams"},
 }
 
 func genManager() {
